@@ -122,4 +122,168 @@ theorem sound_tt_shift (p : P) (p1 p2 : Nat) (s : Int) (b : Bound) (h : Sound G 
     · rw [if_neg hl]
       exact ⟨fun hw' => absurd hw' hw, fun hl' => absurd hl' hl⟩
 
+/-! ### results without a mate claim, and the pruning sites of `negaScout`
+
+The pruning sites (mate-distance cut, razoring, reverse futility, null move, futility, late-move pruning) are sound for
+the *mate-claim* property not because their bounds are right (they are heuristics) but because, under their guards, what
+they return carries no mate claim, or — for moves skipped inside the move loop — because a node that skipped a move
+never ends with a lose score.  `Bridge/SearchGuards.lean` proves the side conditions below from the guard expressions
+regenerated from search.cpp. -/
+
+/-- the result `(s, b)` claims nothing about mates -/
+def NoClaim (s : Int) (b : Bound) : Prop := (isWin s → b = .upper) ∧ (isLose s → b = .lower)
+
+theorem sound_noClaim (p : P) (ply : Nat) (s : Int) (b : Bound) (h : NoClaim s b) : Sound G p ply s b :=
+  ⟨fun hw hb => absurd (h.1 hw) hb, fun hl hb => absurd (h.2 hl) hb⟩
+
+theorem noClaim_normal (s : Int) (b : Bound) (h1 : ¬ isWin s) (h2 : ¬ isLose s) : NoClaim s b :=
+  ⟨fun hw => absurd hw h1, fun hl => absurd hl h2⟩
+
+/-- an exact claim may be relabelled as any bound -/
+theorem sound_weaken (p : P) (ply : Nat) (s : Int) (b : Bound) (h : Sound G p ply s .exact) : Sound G p ply s b :=
+  ⟨fun hw _ => h.1 hw (by decide), fun hl _ => h.2 hl (by decide)⟩
+
+/-- mated node, any bound label (negaScout returns it as `T_LE` from the all-moves path, quiesce as a plain value) -/
+theorem sound_mated_any (p : P) (ply : Nat) (b : Bound) (hm : mated G p = true) (hply : ply < 1000) :
+    Sound G p ply (-(MATE0 - (ply + 1))) b := sound_weaken G p ply _ b (sound_mated G p ply hm hply)
+
+/-- razoring: returned as an upper bound, and not a lose score (quiesce outside check is ≥ its stand-pat value) -/
+theorem sound_razor (p : P) (ply : Nat) (s : Int) (hs : ¬ isLose s) : Sound G p ply s .upper :=
+  sound_noClaim G p ply s .upper ⟨fun _ => rfl, fun hl => absurd hl hs⟩
+
+/-- reverse futility: returned as a lower bound, and not a win score (static evaluation minus a margin) -/
+theorem sound_revfut (p : P) (ply : Nat) (s : Int) (hs : ¬ isWin s) : Sound G p ply s .lower :=
+  sound_noClaim G p ply s .lower ⟨fun hw => absurd hw hs, fun _ => rfl⟩
+
+/-- the clamp applied to the null-move result before it is returned as a lower bound -/
+def nullClamp (score beta : Int) : Int := if score > MATE0 / 2 then beta else score
+
+theorem nullClamp_not_win (score beta : Int) (hb : ¬ isWin beta) : ¬ isWin (nullClamp score beta) := by
+  unfold nullClamp; split
+  · exact hb
+  · assumption
+
+/-- null move: a null move is not a move of the game, so a win score found behind it proves nothing; the site returns
+    the clamped value as a lower bound, which claims nothing because β is not a win score -/
+theorem sound_null (p : P) (ply : Nat) (score beta : Int) (hb : ¬ isWin beta) :
+    Sound G p ply (nullClamp score beta) .lower :=
+  sound_revfut G p ply _ (nullClamp_not_win score beta hb)
+
+/-- mate-distance cut: `β' = min β (MATE0−ply−1)`; the node returns α when `α ≥ β'`.  With `α < β` that means
+    `α ≥ MATE0−ply−1`, and every score that can carry a non-vacuous win claim at this ply (`k ≥ 1`) is below it: the
+    returned α is a correct upper bound, and as a win score with bound `upper` it claims nothing. -/
+theorem mdp_upper_correct (alpha beta : Int) (ply : Nat) (hab : alpha < beta) (hcut : alpha ≥ min beta (MATE0 - ply - 1)) :
+    (∀ s : Int, ∀ k : Nat, 1 ≤ k → (k : Int) = MATE0 - s - ply - 1 → s < alpha) ∧ alpha ≥ MATE0 - ply - 1 := by
+  have h : alpha ≥ MATE0 - ply - 1 := by omega
+  exact ⟨fun s k hk he => by omega, h⟩
+
+theorem sound_mdp (p : P) (ply : Nat) (alpha : Int) (h : alpha ≥ MATE0 - ply - 1) (hply : ply < 1000) :
+    Sound G p ply alpha .upper ∧ NoClaim (-alpha) .lower := by
+  refine ⟨sound_razor G p ply alpha (by simp [isLose, MATE0] at *; omega), ⟨fun hw => ?_, fun _ => rfl⟩⟩
+  simp [isWin, MATE0] at *; omega
+
+/-! #### the move loop with skipped moves (late-move pruning, futility) -/
+
+/-- what happens to one move of the list: searched (`s = −child`), skipped by late-move pruning, or not searched and
+    scored with the futility score `f` -/
+inductive MoveEv where
+  | searched (s : Int)
+  | lmp
+  | fut (f : Int)
+
+/-- `bestScore = max(bestScore, score)`; a late-move-pruned move leaves it unchanged -/
+def MoveEv.step (best : Int) : MoveEv → Int
+  | .searched s => max best s
+  | .lmp => best
+  | .fut f => max best f
+
+/-- the guards under which search.cpp prunes: LMP only while `bestScore` is not a lose score, futility only with a
+    futility score that is not a lose score -/
+def MoveEv.Guarded (best : Int) : MoveEv → Prop
+  | .searched _ => True
+  | .lmp => ¬ isLose best
+  | .fut f => ¬ isLose f
+
+def runLoop (best : Int) : List MoveEv → Int
+  | [] => best
+  | e :: es => runLoop (e.step best) es
+
+def GuardedRun (best : Int) : List MoveEv → Prop
+  | [] => True
+  | e :: es => e.Guarded best ∧ GuardedRun (e.step best) es
+
+theorem runLoop_ge (best : Int) (es : List MoveEv) : best ≤ runLoop best es := by
+  induction es generalizing best with
+  | nil => exact Int.le_refl _
+  | cons e es ih =>
+    have h1 : best ≤ e.step best := by cases e <;> simp [MoveEv.step] <;> omega
+    exact Int.le_trans h1 (ih _)
+
+/-- **pruning rule**: if the guards held whenever a move was skipped and the node nevertheless ends with a lose
+    score, then no move was skipped — every move was searched and its score is ≤ the final score.  (This is what
+    feeds `sound_all_upper`.) -/
+theorem guarded_lose_all_searched (best : Int) (es : List MoveEv) (hg : GuardedRun best es) (hl : isLose (runLoop best es)) :
+    ∀ e ∈ es, ∃ s, e = .searched s ∧ s ≤ runLoop best es := by
+  induction es generalizing best with
+  | nil => intro e he; cases he
+  | cons e es ih =>
+    intro e' he'
+    have hge := runLoop_ge (e.step best) es
+    have hl' : isLose (e.step best) := by unfold isLose at *; simp only [runLoop] at hl; omega
+    rcases List.mem_cons.1 he' with rfl | hmem
+    · cases e' with
+      | searched s =>
+        refine ⟨s, rfl, ?_⟩
+        show s ≤ runLoop (max best s) es
+        exact Int.le_trans (Int.le_max_right best s) (runLoop_ge (max best s) es)
+      | lmp => exact absurd hl' hg.1
+      | fut f =>
+        exfalso; apply hg.1
+        simp [MoveEv.step] at hl'; unfold isLose at *; omega
+    · exact ih (e.step best) hg.2 (by simpa [runLoop] using hl) e' hmem
+
+/-- without the guard the rule is false: one searched move that loses, one skipped move, final score a lose score -/
+theorem unguarded_lmp_witness : isLose (runLoop (-31999) [.searched (-31990), .lmp]) ∧
+    ¬ (∀ e ∈ [MoveEv.searched (-31990), MoveEv.lmp], ∃ s, e = MoveEv.searched s ∧ s ≤ runLoop (-31999) [.searched (-31990), .lmp]) := by
+  refine ⟨by simp only [runLoop, MoveEv.step, isLose, MATE0]; decide, fun h => ?_⟩
+  obtain ⟨s, hs, _⟩ := h .lmp (by simp)
+  cases hs
+
+/-! #### derivations -/
+
+/-- How `negaScout` / `quiesce` produce results.  Every constructor stands for a family of return sites of
+    search.cpp (DESIGN.md Appendix A); `noclaim` covers draws, stalemate, the busy sentinel, stand-pat values and all
+    pruning sites (their side conditions are the `sound_*` lemmas above). -/
+inductive Derivable : P → Nat → Int → Bound → Prop
+  | mated (p : P) (ply : Nat) (b : Bound) : mated G p = true → ply < 1000 → Derivable p ply (-(MATE0 - (ply + 1))) b
+  | noclaim (p : P) (ply : Nat) (s : Int) (b : Bound) : NoClaim s b → Derivable p ply s b
+  | step (p q : P) (ply : Nat) (s sc : Int) (bc : Bound) : q ∈ G.moves p → Derivable q (ply+1) sc bc → bc ≠ .lower →
+      s ≤ -sc → s + ply + 1 < MATE0 → Derivable p ply s .lower
+  | all (p : P) (ply : Nat) (s : Int) (sc : P → Int) (bc : P → Bound) : (G.moves p).isEmpty = false →
+      (∀ q, q ∈ G.moves p → Derivable q (ply+1) (sc q) (bc q)) → (∀ q, q ∈ G.moves p → bc q ≠ .upper ∧ -(sc q) ≤ s) →
+      MATE0 + s - ply - 1 ≥ 1 → Derivable p ply s .upper
+  | exact (p : P) (ply : Nat) (s : Int) : Derivable p ply s .lower → Derivable p ply s .upper → Derivable p ply s .exact
+  | relabel (p : P) (ply : Nat) (s : Int) (b : Bound) : Derivable p ply s .exact → Derivable p ply s b
+  | tt (p : P) (p1 p2 : Nat) (s : Int) (b : Bound) : Derivable p p1 s b → p1 < 1000 → p2 < 1000 →
+      Derivable p p2 (if s > MATE0/2 then s + p1 - p2 else if s < -(MATE0/2) then s - p1 + p2 else s) b
+
+theorem derivable_sound (p : P) (ply : Nat) (s : Int) (b : Bound) (h : Derivable G p ply s b) : Sound G p ply s b := by
+  induction h with
+  | mated p ply b hm hp => exact sound_mated_any G p ply b hm hp
+  | noclaim p ply s b h => exact sound_noClaim G p ply s b h
+  | step p q ply s sc bc hq _ hb hle hr ih =>
+    have h1 := sound_step_lower G p q ply sc bc hq ih hb
+    refine ⟨fun hw _ => ?_, fun _ hb' => absurd rfl hb'⟩
+    have hw' : isWin (-sc) := by unfold isWin at *; omega
+    obtain ⟨k, hk, hkw⟩ := h1.1 hw' (by decide)
+    obtain ⟨K, hK⟩ : ∃ K : Nat, (K : Int) = MATE0 - s - ply - 1 := ⟨(MATE0 - s - ply - 1).toNat, by omega⟩
+    exact ⟨K, hK, winW_mono G k K (by omega) p hkw⟩
+  | all p ply s sc bc hne _ hb hr ih =>
+    by_cases hl : isLose s
+    · exact sound_all_upper G p ply s hne (fun q hq => ⟨sc q, bc q, ih q hq, (hb q hq).1, (hb q hq).2⟩) hl hr
+    · exact sound_razor G p ply s hl
+  | exact p ply s _ _ ih1 ih2 => exact ⟨fun hw _ => ih1.1 hw (by decide), fun hl _ => ih2.2 hl (by decide)⟩
+  | relabel p ply s b _ ih => exact sound_weaken G p ply s b ih
+  | tt p p1 p2 s b _ h1 h2 ih => exact sound_tt_shift G p p1 p2 s b ih h1 h2
+
 end Cl
